@@ -28,4 +28,10 @@ def exportRows {α} (cols : List (List α)) (flt : Option (List Bool)) : List (L
 def filterCol {α} (xs : List α) (flt : Option (List Bool)) : List α :=
   ((List.range xs.length).filter (keep flt)).filterMap (xs[·]?)
 
+/-- the distinct names in order of first occurrence, continuing from the names `acc` already present
+    (the keys of a Python dict filled by assignment in list order) -/
+def firstOccurrences {α} [BEq α] : List α → List α → List α
+  | acc, [] => acc
+  | acc, n :: ns => if acc.contains n then firstOccurrences acc ns else firstOccurrences (acc ++ [n]) ns
+
 end Exetera.Spec.Export
